@@ -159,8 +159,113 @@ func init() {
 			{Rule: "EFF-8", Floors: map[string]int{"stdout": 3, "writer": 2}},
 			{Rule: "EFF-1", Filter: role("cli-readonly")},
 			{Rule: "EFF-3", Filter: role("cli-gate")},
+			{Rule: "TAB-7", Floors: map[string]int{"exit": 1, "code": 5, "wire": 6, "action": 4}},
 		},
-		Decides:    "every error from a library call, os.Open, option parsing and the template printer in package main is returned (wrapped by an exit-coder); package main prints nothing itself on the output/mkdir/verify routes and hands os.Stdout/color.Output to the library unwrapped; read-only subcommands reach no mutation; mkdir creates only without --dry-run and rejects stray arguments.",
-		NotDecided: "urfave/cli's own parsing, the rendered text of `template | output`, closed-stdout semantics of the OS.",
+		Decides:    "main exits non-zero whenever app.Run fails and every cli.Exit code is a non-zero constant; every error from a library call, os.Open, option parsing and the template printer in package main is returned (wrapped by an exit-coder); flags are wired to the matching library options whose values reach the library call; package main prints nothing itself on the output/mkdir/verify routes and hands os.Stdout/color.Output to the library unwrapped; read-only subcommands reach no mutation; mkdir creates only without --dry-run and rejects stray arguments.",
+		NotDecided: "urfave/cli's own parsing, the rendered text of `template | output`, closed-stdout semantics of the OS, crashes (C12's rules cover the library routes).",
+	}
+	props["C01"] = &PropSpec{ID: "C01",
+		Uses: []Use{
+			{Rule: "SIB-3", Filter: and(role("row", "fact"), cfgIs("D")), Floors: map[string]int{"row": 3, "fact": 4}},
+			{Rule: "C01-SEL", Filter: cfgIs("D"), Floors: map[string]int{"select": 2, "walkup": 1, "last": 1, "path": 3}},
+			{Rule: "SIB-4", Filter: cfgIs("D"), Floors: map[string]int{"traversal": 9}},
+			{Rule: "PAIR-1", Floors: map[string]int{"insert": 2, "lookup": 1}},
+			{Rule: "PAIR-2", Floors: map[string]int{"link": 2, "level": 1}},
+			{Rule: "GLOB-3", Filter: cfgIs("D"), Floors: map[string]int{"accumulate": 4}},
+			{Rule: "C01-NAME", Floors: map[string]int{"name": 5}},
+			{Rule: "TAB-6", Filter: and(role("factory", "factory-args", "grower-fields"), cfgIs("D"))},
+			{Rule: "ERR-1", Filter: and(scope("lib"), funcHas("Spreader", "treeSimple).output", "OutputFrom", "gtree.Output"))},
+		},
+		Decides:    "the line each printer writes is name+newline for a root and branch+space+name+newline otherwise; the connector/continuation strings are the last/intermediate ones selected by isLastOfHierarchy of the node / of the ancestor, appended / prepended, over ancestors from the parent up to but excluding the root; isLastOfHierarchy compares with the parent's last child; branch formats travel from the options to the grower fields of the same name; traversals are pre-order over children in order; equally named siblings are merged (lookup before insert) and links are bidirectional one level apart; the per-node cache is cleared before it is rebuilt; the item text loses at most one leading space; output errors are returned.",
+		NotDecided: "the parser's indentation arithmetic and unit inference (a wrong level number is invisible to these rules), the stack discipline that finds the nearest open node one level up, Unicode/bullet characters inside names, equality of the iterator and non-iterator output paths beyond SIB-5.",
+	}
+	props["C02"] = &PropSpec{ID: "C02",
+		Uses: []Use{
+			{Rule: "SIB-5", Floors: map[string]int{"line-loop": 28}},
+			{Rule: "PAIR-3", Floors: map[string]int{"attach": 1, "attach-caller": 4}},
+			{Rule: "TAB-1", Floors: map[string]int{"map": 3, "blank": 2}},
+			{Rule: "TAB-2", Filter: role("split", "table")},
+			{Rule: "NIL-1", Filter: role("handover-return")},
+		},
+		Decides:    "in all four line loops (simple, iterator, pipeline worker, tinywasm) every scanned line is classified; a parse error ends the call with that error; only whitespace-only lines map to 'skip'; a root opens a new stack and is recorded; an item before the first root hits a live nil-stack test; every other item is attached or the attach function reports failure which every caller turns into the format error of that line; every recorded root is handed over; the format error carries and prints the row.",
+		NotDecided: "the 'iff': which lines the parser considers malformed (indent not a multiple of the unit, tab/space mixing, empty text) is decided on run-time values; that the error text quotes the row byte-for-byte; the massive-mode splitter's grouping of lines into blocks beyond the symbol-table agreement.",
+	}
+	props["C03"] = &PropSpec{ID: "C03",
+		Uses: []Use{
+			{Rule: "PAIR-4", Floors: map[string]int{"validate-first": 10, "sentinel": 1}},
+			{Rule: "SIB-1", Floors: map[string]int{"alias": 9}},
+			{Rule: "PAIR-1", Filter: funcHas("Add", "findChildByText")},
+			{Rule: "PAIR-2", Filter: funcHas("Add", "isDirectlyUnder")},
+			{Rule: "SIB-3", Filter: and(funcHas("assembleAndPrint", "defaultSpreaderSimple).spreadBranch"), cfgIs("D"))},
+			{Rule: "SIB-6", Filter: role("stages")},
+			{Rule: "GLOB-3", Filter: cfgIs("D")},
+			{Rule: "GLOB-1", Filter: and(role("sink", "global-mutable", "summary"), cfgIs("D"))},
+			{Rule: "EFF-4", Filter: and(role("gate", "encode"), funcHas("rogrammably", "FromRoot"))},
+		},
+		Decides:    "every From-Root entry point (and the iterator closures) validates the root first with the documented sentinels and does nothing else before; deprecated aliases are identical to their replacements; Add looks the name up before inserting and links both ways one level deeper; the fused From-Root printer writes the same row term as the grow-then-print path and clears the node cache first on every route; From-Root routes enable validation and force the default encoding like the Markdown routes; no mutable package-level state reaches a decision or output.",
+		NotDecided: "equality of the two API families' outputs as values for every tree and option combination (it follows from shared code only as far as that code is deterministic in the tree).",
+	}
+	props["C04"] = &PropSpec{ID: "C04",
+		Uses: []Use{
+			{Rule: "TAB-6", Filter: role("tags", "encode", "factory"), Floors: map[string]int{"tags": 4, "encode": 2}},
+			{Rule: "PAIR-6", Floors: map[string]int{"encoder": 10}},
+			{Rule: "SIB-4", Filter: funcHas("toFormattedNode", "toJSONNode"), Floors: map[string]int{"traversal": 2}},
+			{Rule: "ERR-1", Filter: and(scope("lib"), funcHas("formattedSpreader", "jsonSpreader"))},
+			{Rule: "NIL-4", Filter: funcHas("toFormattedNode", "getChild", "toJSONNode")},
+		},
+		Decides:    "records are tagged value/children in all three formats; the encode constant selects the encoder of the matching package; one encoder is constructed per call (outside the per-root loop) and Encode is called per root; the tree copy uses one index for source and copy and preserves order and nesting; encoder errors propagate. (Thin claim: the encoders' own quoting is not analysed.)",
+		NotDecided: "that encoding/json, yaml.v3 and go-toml quote every hostile name correctly and that decoding yields equal strings (library behaviour on run-time values; a hand-written Marshaler would not be analysed); TOML for multi-root input.",
+	}
+	props["C05"] = &PropSpec{ID: "C05",
+		Uses: []Use{
+			{Rule: "SIB-3", Filter: and(role("accessor", "fact"), cfgIs("D")), Floors: map[string]int{"accessor": 6}},
+			{Rule: "ERR-4", Floors: map[string]int{"callback": 8}},
+			{Rule: "PAIR-7", Floors: map[string]int{"yield": 6, "yield-exempt": 3}},
+			{Rule: "SIB-4", Filter: funcHas("walkNode", "assemble"), Floors: map[string]int{"traversal": 3}},
+			{Rule: "NIL-3", Filter: role("iter")},
+			{Rule: "C01-SEL", Filter: and(role("path"), cfgIs("D"))},
+			{Rule: "EFF-4", Filter: and(role("encode"), funcHas("Walk"))},
+			{Rule: "ERR-1", Filter: and(scope("lib"), funcHas("alk"))},
+		},
+		Decides:    "Row/Branch/Name/Level/Path/HasChild read exactly the node facts the printer uses (Row = Branch+space+Name, Name for a root); walkers visit pre-order in child order; the callback's first error is returned as the same value from every level (including the loop over roots) with no further callback reachable; iterators never call yield after a false result or a yielded error unless consumed through iter.Pull2 only; the simple tree is always selected for the iterator form; branches are grown (default encoding forced) before walking; path elements are placed root-first.",
+		NotDecided: "that Path elements are single path elements (value-level), exactly-once visiting beyond the traversal template, behaviour under the massive option (excluded by the property).",
+	}
+	props["C13"] = &PropSpec{ID: "C13",
+		Uses: []Use{
+			{Rule: "GLOB-1", Floors: map[string]int{"global": 8, "summary": 2}},
+			{Rule: "GLOB-3", Floors: map[string]int{"accumulate": 8}},
+			{Rule: "CONC-4", Filter: role("access")},
+		},
+		Decides:    "no value derived from mutable package-level state (a variable assigned outside init, written through, or handed to a mutating method — counters, caches, pools, maps) reaches a branch condition, an output/filesystem call or an exported result; the per-node branch/path cache is cleared before it is rebuilt on every route, so repeating an operation repeats its result.",
+		NotDecided: "concurrent Add on the same tree from several goroutines (unsupported by design), external global configuration (color.NoColor), state kept in objects the caller passes in.",
+	}
+	props["C15"] = &PropSpec{ID: "C15",
+		Uses: []Use{
+			{Rule: "TAB-2", Floors: map[string]int{"table": 2, "loop": 1, "split": 2}},
+			{Rule: "TAB-1", Filter: role("blank")},
+			{Rule: "SIB-5", Filter: func(o Ob) bool { return strings.Contains(o.Construct, "blank lines") || strings.Contains(o.Construct, "classified") }},
+		},
+		Decides:    "(thin claim) the three bullet symbols are all in the parser's table, all tried (no early break), and the massive-mode splitter consults the same table plus '#'; whitespace-only lines are skipped — not rejected, not turned into nodes — in every line loop.",
+		NotDecided: "most of the property: inference of the indentation unit, tab/space choice, heading roots shifting list rows, CRLF and final-newline handling, the order in which bullets are tried against text containing bullet characters — all arithmetic on run-time strings. A pass here says nothing about those.",
+	}
+	props["C17"] = &PropSpec{ID: "C17",
+		Uses: []Use{
+			{Rule: "SIB-2", Floors: map[string]int{"twin": 13, "shared": 8, "partition": 1}},
+			{Rule: "SIB-3", Filter: or(cfgIs("W"), role("report")), Floors: map[string]int{"row": 3, "report": 6}},
+			{Rule: "SIB-4", Filter: cfgIs("W"), Floors: map[string]int{"traversal": 4}},
+			{Rule: "PAIR-5", Floors: map[string]int{"count": 4, "colorize": 4}},
+			{Rule: "TAB-6", Filter: or(cfgIs("W"), role("tags"))},
+			{Rule: "TAB-3", Filter: role("ext", "pred")},
+			{Rule: "C01-SEL", Filter: cfgIs("W")},
+			{Rule: "GLOB-3", Filter: cfgIs("W")},
+			{Rule: "ERR-1", Filter: cfgIs("W")},
+			{Rule: "ERR-3", Filter: cfgIs("W")},
+			{Rule: "PAIR-3", Filter: cfgIs("W")},
+			{Rule: "SIB-5", Filter: cfgIs("W")},
+			{Rule: "EFF-4", Filter: and(cfgIs("W"), role("validate-call"))},
+			{Rule: "NIL-1", Filter: cfgIs("W")},
+		},
+		Decides:    "the tinywasm generator, grower and factories are line-for-line (canonical SSA) the default build's; shared files are compiled into both variants; the variant's baked-in row term composed with its concatenating printer equals the default row term; the dry-run report and summary have the same term (newline placement differs but composes equally) and counters are reset per root and incremented once per node by the shared predicate; JSON tags and copy order agree; the variant's own error, scanner, attach and nil disciplines hold.",
+		NotDecided: "equality on colour escape codes (the variant colours names before the branch is baked), TinyGo's runtime and standard library versus Go's, pairs outside the table; a structurally different but equivalent rewrite of one twin is reported as divergence by design.",
 	}
 }
